@@ -75,6 +75,19 @@ pub fn class_list(rng: &mut Rng, many_patterns: bool) -> String {
         }
     }
     rng.shuffle(&mut cs);
+    // Other spellings of a spacing already present (`d-grid-6` → `d-grid-06`, `d-grid-+6`):
+    // distinct class names which parse to one number, so any order derived from the number
+    // alone leaves them in set order. Appended after the shuffle and without a draw, so the
+    // stream of every other choice is what it was.
+    let respelt: Vec<String> = cs
+        .iter()
+        .filter_map(|c| {
+            let (p, n) = c.rsplit_once('-')?;
+            let v: u32 = n.parse().ok()?;
+            (PATTERN_PREFIXES.contains(&p) && v % 3 == 0).then(|| if v % 2 == 0 { format!("{p}-0{v} {p}-+{v}") } else { format!("{p}-00{v}") })
+        })
+        .collect();
+    cs.extend(respelt);
     cs.join(" ")
 }
 
